@@ -993,6 +993,10 @@ func init() {
 		x, y := in.timeOf(a[0]), in.timeOf(a[1])
 		return tb.Ite(tb.Bin("bvslt", x, y), tb.SConst(64, -1), tb.Ite(tb.Bin("bvslt", y, x), tb.Const(64, 1), tb.Const(64, 0)))
 	}
+	I["(time.Time).Unix"] = func(in *Interp, fn *ssa.Function, a []Value) Value {
+		// seconds since the Unix epoch are not modelled (would need a division by 10^9): an arbitrary value
+		return in.ex.NewVar("unix-seconds", 64)
+	}
 	I["(time.Time).String"] = func(in *Interp, fn *ssa.Function, a []Value) Value { return "<time>" }
 	I["(time.Time).Format"] = func(in *Interp, fn *ssa.Function, a []Value) Value { return "<time>" }
 	I["(time.Duration).String"] = func(in *Interp, fn *ssa.Function, a []Value) Value { return "<duration>" }
@@ -1003,13 +1007,22 @@ func init() {
 		}
 		return float64(sext(t.K, 64)) / 1e9
 	}
+	durIdent := func(in *Interp, fn *ssa.Function, a []Value) Value {
+		m := a[1].(*Term)
+		if !m.IsConst() || (m.K != 1000000000 && m.K != 1) {
+			unsupported("Duration.Round/Truncate to a unit other than a second")
+		}
+		return a[0] // durations are whole seconds by the clock-model assumption
+	}
+	I["(time.Duration).Round"] = durIdent
+	I["(time.Duration).Truncate"] = durIdent
 	I["time.Sleep"] = func(in *Interp, fn *ssa.Function, a []Value) Value { return nil }
 
 	// ----- context -----
-	newCtx := func(parent *NativeObj, k, v Value) *IfaceV {
+	newCtx := func(parent Value, k, v Value) *IfaceV {
 		o := &NativeObj{kind: "ctx", data: map[string]Value{}}
 		if parent != nil {
-			o.data["parent"] = parent
+			o.data["parent"] = parent // *NativeObj, or *IfaceV for a context implemented in Go code
 		}
 		if k != nil {
 			o.data["key"] = k
@@ -1017,16 +1030,15 @@ func init() {
 		}
 		return &IfaceV{typ: nil, v: o}
 	}
-	ctxObj := func(v Value) *NativeObj {
+	ctxObj := func(v Value) Value {
 		iv, _ := v.(*IfaceV)
 		if iv == nil {
 			return nil
 		}
-		o, ok := iv.v.(*NativeObj)
-		if !ok {
-			unsupported("context value that is not engine-native (%v)", iv.typ)
+		if o, ok := iv.v.(*NativeObj); ok {
+			return o
 		}
-		return o
+		return iv
 	}
 	I["context.Background"] = func(in *Interp, fn *ssa.Function, a []Value) Value { return newCtx(nil, nil, nil) }
 	I["context.TODO"] = I["context.Background"]
@@ -1049,15 +1061,29 @@ func init() {
 		return []Value{in.timeVal(in.tb.SConst(TW, 0)), in.tb.BoolC(false)}
 	}
 	nativeObjMethods["ctx.Value"] = func(in *Interp, o *NativeObj, a []Value) Value {
-		for c := o; c != nil; {
-			if k, ok := c.data["key"]; ok {
-				e := in.eqVal(k, a[0])
-				if in.ex.Branch(e) {
-					return c.data["val"]
+		var cur Value = o
+		for cur != nil {
+			switch c := cur.(type) {
+			case *NativeObj:
+				if k, ok := c.data["key"]; ok {
+					e := in.eqVal(k, a[0])
+					if in.ex.Branch(e) {
+						return c.data["val"]
+					}
 				}
+				cur = c.data["parent"]
+			case *IfaceV: // a context type implemented in Go code: ask it
+				if c == nil || c.typ == nil {
+					return (*IfaceV)(nil)
+				}
+				m := in.lookupMethod(c.typ, nil, "Value")
+				if m == nil {
+					unsupported("context parent of type %s has no Value method", c.typ)
+				}
+				return in.Call(m, []Value{c.v, a[0]}, nil)
+			default:
+				cur = nil
 			}
-			p, _ := c.data["parent"].(*NativeObj)
-			c = p
 		}
 		return (*IfaceV)(nil)
 	}
